@@ -3,10 +3,17 @@
 Proof: lean/Reduino/Props/C15.lean over Fw/Inputs.lean (and Host.Button).
 Tie S_c: model vs emitted C++ compiled against the mock core with scripted digitalRead/analogRead/pulseIn/millis.
 Oracle: monitors on the firmware trace (one sample per pass, click = rising edge, trigger spacing, attempts, fallback)
-and the host Button's click count."""
+and the host Button's click count.
+
+Button runs come in two families: the untimed one (the clock stands still: no delay in the pass) and the TIMED one (own PRNG): the pass
+ends in sleep(k) with k from 1 ms to 25 ms, the millisecond clock starts at 0 / a small value / seconds after power-up / just before the
+counter wraps, and the signals are dense in edges (alternating, single-sample pulses, bursts) — so released->pressed transitions arrive
+1 ms to 100 ms apart by millis().  The property ties the handler to the SAMPLED signal only, for every timing: the same monitors and
+the same model answer apply."""
 from __future__ import annotations
 
 import importlib
+import random
 import struct
 
 import common
@@ -18,12 +25,13 @@ TRUSTED = [
     "harness/mockcore: scripted digitalRead/analogRead/pulseIn, virtual millis() advanced by delay() and scripted drift; host g++",
     "float32 rounding of the distance is outside the theorems (exact arithmetic); the counter model is run with W = 2^64 (host unsigned long), the board's W is 2^32 (theorems: every W)",
     "`each pot.read() is one analogRead` is decided on the emitted code by the trace monitor, not by a Lean theorem",
+    "button timing: time passes only through delay() at the end of a pass (virtual clock); pass lengths 1-25 ms and six start values are sampled, the Lean model has no clock (the property has none)",
 ]
 
 HEAD = ["from Reduino.Sensors import Button, Potentiometer, Ultrasonic", "from Reduino.Communication import SerialMonitor", "from Reduino.Utils import sleep"]
 
 
-def button_script(in_loop: bool, nreads: int, form: str = "write"):
+def button_script(in_loop: bool, nreads: int, form: str = "write", sleep_ms: int = 0):
     lines = HEAD + ["mon = SerialMonitor(9600)", "def on_press():", '    mon.write("C")', "k = 0"]
     if not in_loop:
         lines.append("btn = Button(7, on_click=on_press)")
@@ -39,7 +47,28 @@ def button_script(in_loop: bool, nreads: int, form: str = "write"):
     for _ in range(nreads):
         lines.append("    mon.write(btn.is_pressed())")
     lines.append('    mon.write("#")')
+    if sleep_ms:             # a pass that takes time: the clock moves between two samples
+        lines.append(f"    sleep({sleep_ms})")
     return "\n".join(lines) + "\n"
+
+
+def edge_dense_signal(rng, n):
+    """signals with many released->pressed transitions close together: alternation, single-sample pulses, bursts separated by holds"""
+    kind = rng.randrange(4)
+    if kind == 0:
+        first = rng.randrange(2)
+        return [(first + i) % 2 for i in range(n)]
+    if kind == 1:
+        out = []
+        while len(out) < n:
+            out += [0] * rng.randint(1, 3) + [1]
+        return out[:n]
+    if kind == 2:
+        out = [0]
+        while len(out) < n:
+            out += [1, 0] * rng.randint(1, 4) + [rng.randrange(2)] * rng.randint(2, 6)
+        return out[:n]
+    return [int(rng.random() < 0.5) for _ in range(n)]
 
 
 def button_canon(trace, nreads):
@@ -92,6 +121,18 @@ def run(ctx: Ctx) -> int:
         bjobs.append((False, 1, src_redecl, sig))
     # pinned finding witness: button declared in the loop body, held at power-up
     bjobs.append((True, 1, button_script(True, 1), [1, 1, 0, 1]))
+    # timed family (own PRNG: the streams above and below stay what they were): every pass takes sleep_ms, the clock starts at `start`
+    rng_t = random.Random(f"{ctx.seed}:C15:timed-button")
+    BSTART = {}
+    for sleep_ms in (1, 2, 5, 10, 19, 20, 25):
+        for in_loop, nreads in ((False, 1), (True, 2)) if sleep_ms in (1, 5, 20) else ((False, 1),):
+            src = button_script(in_loop, nreads, "write", sleep_ms)
+            tsigs = [[0, 0, 1, 0, 1], [0, 1, 0, 1, 0, 1, 0, 1], [1, 0, 1, 0, 1, 1, 0, 1]] if (sleep_ms in (1, 5) and not in_loop) else []
+            tsigs += [edge_dense_signal(rng_t, rng_t.randint(4, 30)) for _ in range(ctx.n(3, 20))]
+            for sig in tsigs:
+                job = (in_loop, nreads, src, sig)
+                BSTART[len(bjobs)] = rng_t.choice([0, 0, 1, 17, 1000, 1000, 65536, 2 ** 32 - 40, 2 ** 64 - 40])
+                bjobs.append(job)
 
     # ---------------- Ultrasonic ---------------------------------------------------------------------------------
     ujobs = []
@@ -145,8 +186,8 @@ def run(ctx: Ctx) -> int:
         cpps[s] = (cpp, exc)
     runs = []   # (kind, job, src, passes, inputs)
     STARTS = {}
-    for j in bjobs:
-        runs.append(("button", j, j[2], len(j[3]) - 1, "d 7 " + " ".join(map(str, j[3]))))      # the first sample is taken by setup(), wherever the button is declared
+    for bi, j in enumerate(bjobs):
+        runs.append(("button", j, j[2], len(j[3]) - 1, "d 7 " + " ".join(map(str, j[3])) + (f"\nT {BSTART[bi]}" if BSTART.get(bi) else "")))      # the first sample is taken by setup(), wherever the button is declared
     for j in ujobs:
         # a quarter of the runs start just before the millisecond counter wraps (host `unsigned long` is 64-bit: same arithmetic, other modulus);
         # their traces are read relative to the start value, so models and monitors see the same times as in an unwrapped run
@@ -206,7 +247,12 @@ def run(ctx: Ctx) -> int:
             declared_in_loop, in_loop = in_loop, False
             setup_reads, ps = button_canon(res.trace, nreads)
             impl = " ".join(f"c{min(p['click'], 1)}v{1 if (p['vals'] and p['vals'][0]) else 0}" for p in ps)
-            ctx.case(req + f"|{nreads}", nontrivial=any(sig), sample={"script": src, "signal": sig, "model": m} if len(ctx.cov["samples"]) < 2 else None)
+            timed = "    sleep(" in src
+            if timed:
+                ctx.count("button:timed-run")
+                ds_ = [int(l.split()[1]) for l in res.trace if l.startswith("delay ")]
+                ctx.count("button:timed-run rising edges < 20 ms apart", int(bool(ds_) and max(ds_) < 20 and sum(1 for a, b in zip(sig, sig[1:]) if b and not a) >= 2))
+            ctx.case(req + f"|{nreads}" + (f"|{inputs.split(chr(10))[-1]}|{src.count('sleep(')}" if timed else ""), nontrivial=any(sig), sample={"script": src, "signal": sig, "model": m} if len(ctx.cov["samples"]) < 2 else None)
             nohandler = "btn = Button(7)\n" in src          # re-declared without a handler (the model and the host emulation below assume one)
             if impl != m and not nohandler:
                 ctx.tie_diff("tie S_c button (Fw.Button vs compiled ButtonPoll)", {**replay, "request": req}, m, impl)
@@ -335,6 +381,7 @@ def run(ctx: Ctx) -> int:
                 if len(ars) != nreads or got != want:
                     ctx.fail("pot:fresh-read", f"{nreads} read() calls: {len(ars)} analogRead events, printed {got}, ADC gave {want}", {"script": src, "inputs": inputs})
     ctx.cov["rule"] = ("button: every signal up to length 5 (quick) / 8 (thorough) plus random long ones, 1-3 is_pressed() calls per pass, declared before the "
-                       "loop or at the top of its body; ultrasonic: programs of 1-3 measure calls and sleeps per pass, 1-4 passes, echo scripts with time-outs, "
+                       "loop or at the top of its body; timed button runs: passes of 1-25 ms (sleep at the end of the body), clock starting at 0 / small / "
+                       "seconds / just before 2^32 and 2^64, edge-dense signals (alternating, single-sample pulses, bursts); ultrasonic: programs of 1-3 measure calls and sleeps per pass, 1-4 passes, echo scripts with time-outs, "
                        "clock drift scripts around the 60 ms guard; pot: 0-3 reads per pass; non-trivial = signal/echo script not all zero")
     return ctx.finish(TRUSTED, search=None)
